@@ -4,7 +4,7 @@
 # repository's suite, (ii) makes its demonstration fail, (iii) the demonstration passes without it.
 set -u
 ID="$1"; V="$2"
-WT=/tmp/wt-$ID; SD=/tmp/seeded-$ID/$V
+WT=/tmp/wt-$ID; SD=${SEEDROOT:-/tmp/seeded}-$ID/$V
 export PUBLISH_SKIP_BUILD=1 CARGO_NET_OFFLINE=true
 cd "$WT" || exit 2
 git checkout -q -- . ; rm -f tests/seeded_demo_*.rs
